@@ -2002,7 +2002,10 @@ def m_filter_map_collect(ex, state, frame, dest, args, ret_block, work, callee):
     dty = (ex.place_type(frame, dest) or "").strip()
     into_result = re.match(r"^(std::result::|core::result::)?Result<(std::vec::|alloc::vec::)?Vec<", dty) is not None
     if not into_result and not re.match(r"^(std::vec::|alloc::vec::)?Vec<", dty):
-        # collecting into something else (a token stream, a map, ...): not modelled, the value stays opaque
+        # collecting into something else (a token stream, a map, ...): the container itself stays opaque, but the iterator is driven to its end so that the
+        # closures of the chain run (events, panic sites, early exit of `collect::<Result<..>>()` on the first Err)
+        if isinstance(fm, (FMap, FlatMap, IterL, IterS)):
+            return _collect_other(ex, state, frame, dest, fm, ret_block, work, dty, callee)
         return _ret(ex, state, frame, dest, Opaque(("call", normalize_callee(callee), tuple(ex.summ(state, a)[:120] for a in args)), dty or None), ret_block)
     if not isinstance(fm, (FMap, FlatMap, IterL, IterS)):
         if into_result:
@@ -2031,6 +2034,70 @@ def m_filter_map_collect(ex, state, frame, dest, args, ret_block, work, callee):
     for st, items in done:
         fr = st.frames[-1]
         ex.write_place(st, fr, dest, VecL(items))
+        fr.block = ret_block
+        work.append(st)
+    return "done"
+
+
+def _collect_other(ex, state, frame, dest, fm, ret_block, work, dty, callee):
+    """`iter.collect::<C>()` for a container the executor does not model (TokenStream, HashSet, ...), also wrapped in `Result<C, _>`"""
+    is_result = re.match(r"^(std::result::|core::result::)?Result<", dty) is not None
+    is_stream = "TokenStream" in dty
+
+    def container(st, items):
+        if is_stream:
+            # `iter.collect::<TokenStream>()` is `let mut ts = TokenStream::new(); for x in iter { ts.extend(x) }`: say so in the trace
+            ex.fresh += 1
+            val = Opaque(("call", "TokenStream::new", ("#%d" % ex.fresh,)), "TokenStream")
+            for it in items:
+                if "Extend::TokenStream::extend" in ex.trace:
+                    st.events.append(("Extend::TokenStream::extend", [ex.summ(st, val), ex.summ(st, it)]))
+            return val
+        return Opaque(("collected", normalize_callee(callee), tuple(ex.summ(st, it)[:100] for it in items)), None)
+
+    cur = [(state.clone(), [], fm)]
+    done = []
+    for step in range(ex.slice_bound + 6):
+        nxt = []
+        for st, items, itv in cur:
+            for st1, opt, it1 in iter_next_alts(ex, st, itv):
+                if opt.variant == "None":
+                    c = container(st1, items)
+                    done.append((st1, Agg("adt", "Result", "Ok", [c]) if is_result else c))
+                    continue
+                v = opt.fields[0]
+                if not is_result:
+                    nxt.append((st1, items + [v], it1))
+                    continue
+                if isinstance(v, Agg) and v.kind == "adt" and v.name == "Result":
+                    if v.variant == "Ok":
+                        nxt.append((st1, items + [v.fields[0]], it1))
+                    else:
+                        done.append((st1, Agg("adt", "Result", "Err", v.fields[:1])))
+                    continue
+                if isinstance(v, (Sym, Opaque)):
+                    d = ex.discriminant(st1, v if isinstance(v, Sym) else Opaque(v.origin, "Result<?,?>"), "Result<?,?>")
+                    for i in (0, 1):
+                        c = d == i
+                        if ex.feasible(st1, c):
+                            st2 = st1.clone()
+                            st2.pc.append(c)
+                            if i == 0:
+                                ok = Sym(v.path + (("as", "Ok"), 0)) if isinstance(v, Sym) else Opaque(("ok-of", v.origin), None)
+                                nxt.append((st2, items + [ok], it1))
+                            else:
+                                done.append((st2, Agg("adt", "Result", "Err", [Opaque(("err-of", v.origin if isinstance(v, Opaque) else pstr(v.path)), None)])))
+                    continue
+                raise Inconclusive("collect into Result of %r" % (v,))
+        cur = nxt
+        if not cur:
+            break
+    if cur or not done:
+        raise Inconclusive("collect(): iterator longer than the bound / no alternative")
+    ex.stats["forks"] += len(done) - 1
+    for st, val in done:
+        fr = st.frames[-1]
+        ex.write_place(st, fr, dest, val)
         fr.block = ret_block
         work.append(st)
     return "done"
